@@ -107,6 +107,14 @@ def check(rep):
         "[H]{[<][<]C(N)C[>] [>]}|gauss(100, 20)|{[<][<]C(=O)C[>], [<|3.0|]CC(F)[>]; [>|2.0|][H], [<]F[]}|gauss(100, 20)|",
         "C{[$][$]CC[$]; [$]O[$]}|gauss(80, 5)|{[$][$|2|]C(C)C[$], [$]NC[$]; [$|3|]F, [$][H][$]}|gauss(90, 9)|{[$][$]OC[$]; [$]Cl[$]}|uniform(30, 90)|N",
         "{[][>]CC[<], [>|2|]C(C)C[<]; [>]N, [<]O[<]}|poisson(80)|{[>][>|0.5|]SC[<], [>]CS[<|4|]; [>]F, [<][H], [<|2|]C[]}|gauss(70, 7)|"]]
+    # user-written descriptors on the token that follows an object: an exit descriptor of the other kind with positive weight, an extra
+    # descriptor on a suffix (the hand-over leaves the object only through descriptors compatible with its right terminal)
+    texts += [("user_connector", t) for t in [
+        "CC{[>] [<]CC[>] [<]}|flory_schulz(0.2)|[<]CO[>]{[>] [<]CC(C)[>] [<]}|flory_schulz(0.2)|F",
+        "CC{[>][<]CC[>], [<|2|]C(N)C[>][<]}|gauss(80, 8)|[<]C(=O)O[>|3|]{[>][<]CC(C)[>]; [<]F[<]}|gauss(70, 7)|[<]N",
+        "C{[$1][$1]CC[$1][$1]}|gauss(60, 5)|[$1]CO[$2]{[$2][$2]CS[$2][$2]}|gauss(60, 5)|[$2]F",
+        "[H]{[>][<]CC[>][<]}|poisson(70)|[<]CC([>|2|])O",
+        "O{[<][>]CC[<], [>]C(F)C[<|4|][>]}|uniform(40, 90)|[>]CN[<|0.5|]{[<][>]OC[<][>]}|uniform(40, 90)|[>]Cl"]]
     evaluations = nodes = edges = 0
     distinct = set()
     for arche, text in texts:
@@ -162,6 +170,17 @@ def check(rep):
                     rep.fail("oracle", f"weight edge {s} -> {d} with {k}={p} joins incompatible descriptors {a} and {b}", ident_case, expected="compatible", observed=f"{a} {b}")
                 if a.transitions is None and (s, d, k) not in exp:
                     rep.fail("oracle", f"edge {s} -> {d}: the graph says {k}={p}, generation never makes this pick", ident_case, expected=None, observed=p)
+        # hand-over from an object to the token written after it: generation leaves the object only through a descriptor compatible with
+        # the object's right terminal, so no other descriptor of the object may carry a transition edge into that token
+        from gbigsmiles.stochastic import Stochastic as _St
+        from gbigsmiles.token import SmilesToken as _Tk
+        for (s_, d_, k), p in ie.items():
+            if k == "trans_prob" and p > 0 and d_[0] == s_[0] + 1 and isinstance(mol._elements[s_[0]], _St) and isinstance(mol._elements[d_[0]], _Tk):
+                a = bds_of[s_[0]][s_[1]]
+                if not genrun.rule_compatible(a, mol._elements[s_[0]].right_terminal):
+                    rep.fail("oracle", f"transition edge {s_} -> {d_} with trans_prob={p}: descriptor {a} is not compatible with the right terminal "
+                             f"{mol._elements[s_[0]].right_terminal} of its object, generation never leaves the object through it", {**ident_case, "edge": [list(s_), list(d_), k]},
+                             expected=None, observed=p)
         if len(ie) > 2:
             distinct.add(text)
     rep.coverage.update({"evaluations": evaluations, "distinct_nontrivial": len(distinct), "graph_nodes_checked": nodes, "probability_edges_checked": edges,
